@@ -18,6 +18,8 @@ ops:
   {"op":"wf","tree":T,"len":n}                     → {"wf":bool,"pos":p,"end":e}
   {"op":"linecol","text":s,"pos":[p…]}             → {"lc":[[line,col]…]}
   {"op":"loc","heap":…,"text":s,"file":n|null,"xs":[id…]} → {"loc":[[line,col,nchar,file|null]|null…]}
+  {"op":"locm","heap":…,"roots":[[root id,text,file|null]…],"xs":[id…]} → the same; several models in one heap, each
+      root with the input of its own parser and its own file name (a root that is not listed: empty input, no file)
 -/
 open Lean Wire Obj
 
@@ -159,6 +161,23 @@ def locJ : Option Loc → Json
                          (match l.file with | some f => toJson f | none => Json.null)]
   | none => Json.null
 
+def parseRoot (j : Json) : Option (Nat × List Char × Option Nat) := do
+  let xs ← asArr? j
+  let r ← asNat? (← xs[0]?)
+  let s ← asStr? (← xs[1]?)
+  let f ← optNat? (← xs[2]?)
+  pure (r, s.toList, f)
+
+def rootInput (tbl : List (Nat × List Char × Option Nat)) (r : Nat) : List Char :=
+  match tbl.find? (·.1 = r) with
+  | some (_, cs, _) => cs
+  | none => []
+
+def rootFile (tbl : List (Nat × List Char × Option Nat)) (r : Nat) : Option Nat :=
+  match tbl.find? (·.1 = r) with
+  | some (_, _, f) => f
+  | none => none
+
 def handle1 (j : Json) : Json :=
   match getStr? j "op" with
   | some "nav" =>
@@ -196,6 +215,12 @@ def handle1 (j : Json) : Json :=
       let cs := s.toList
       Json.mkObj [("loc", Json.arr (xs.map fun x => locJ (getLocation h (fun _ => cs) (fun _ => file) (arr.size + 1) x)).toArray)]
     | _, _, _, _ => badOp
+  | some "locm" =>
+    match (getObj? j "heap").bind parseHeap, (getArr? j "roots").bind (·.toList.mapM parseRoot), getNatList? j "xs" with
+    | some arr, some tbl, some xs =>
+      let h := heapOfArr arr
+      Json.mkObj [("loc", Json.arr (xs.map fun x => locJ (getLocation h (rootInput tbl) (rootFile tbl) (arr.size + 1) x)).toArray)]
+    | _, _, _ => badOp
   | _ => badOp
 
 /-- {"op":"multi","reqs":[R…]} → {"outs":[answer of R…]} -/
